@@ -310,7 +310,7 @@ impl Arm for C10 {
     }
     fn runs(&self, tier: Tier) -> u64 {
         match tier {
-            Tier::Quick => 160,
+            Tier::Quick => 400,
             Tier::Thorough => 2500,
         }
     }
